@@ -35,6 +35,11 @@ Interleaved leg (one DATADumpFile object that is written AND read): every histor
   the reader's own state: keys C15:interleaved:<file|bytesio>:reader-state:...) and, if that
   run is clean, as plain API use (what fails only there comes from where an append after a
   read lands: keys C15:interleaved:<file|bytesio>:append-position:...).
+Cross-object leg (runs first, in the parent process): a fixed sequence of writes and reads over
+  four capture profiles and both backends through several DATADumpFile objects that are alive
+  at the same time; if one capture's reads depend on another capture (state shared between
+  objects) it reports C15:cross-object:<backend>:capture<N>:... and the sweeps are skipped
+  (their violations would depend on what the worker process handled before and not replay).
 Re-append leg: ONE message object is appended several times and changed in place in between
   (burst elements / slice / whole buffer changed in the same burst object, header fields
   changed, burst re-bound; Tx and Rx, v0/v1, NOPE; append_msg / append_all; both backends;
@@ -491,12 +496,12 @@ def il_reads_small(n):
 class Capture:
     """one capture under test: a real file opened by path, or a BytesIO"""
 
-    def __init__(self, backend, directory):
+    def __init__(self, backend, directory, name="capture.bin"):
         dd = env()["dd"]
         self.backend = backend
         self.path = None
         if backend == "file":
-            self.path = os.path.join(directory, "capture.bin")
+            self.path = os.path.join(directory, name)
             if os.path.exists(self.path):
                 os.unlink(self.path)
             self.d = dd.DATADumpFile(self.path)
@@ -646,6 +651,93 @@ def work_interleaved(arg):
             seen.add(v[0])
             keep.append(v)
     return {"cov": cov, "viol": keep[:40], "nviol_extra": max(0, len(out) - len(keep[:40]))}
+
+
+# ---------------------------------------------------------------------------
+# cross-object leg: several DATADumpFile objects in ONE process (state shared between objects - class attributes,
+# module globals - would make one capture's reads depend on another capture)
+
+XO_PROFILES = [[0, 10, 5],           # Tx v0 148 (157 octets), Rx v1 NOPE (14), Rx v1 8-PSK (458)
+               [8, 1, 2, 10],        # Rx v1 32QAM (754), Tx v1 444 (453), Rx v0 148 (159), Rx v1 NOPE (14)
+               [10],                 # a single NOPE
+               [3, 3, 9, 0, 7]]      # Rx v0 444 (455) x2, Rx v1 AQPSK (310), Tx v0 148, Rx v1 16QAM (606)
+XO_LIMIT = 20
+
+
+def xo_ops(n):
+    ops = [("msg", i) for i in range(n + 1)]
+    ops += [("all", sk, c, False) for sk in [None] + list(range(n + 1)) for c in (None, 1, 2)]
+    ops.append(("all", None, None, True))
+    return ops
+
+
+def cross_object_leg(only_pos=None):
+    """A fixed sequence, executed from a fresh process: per backend, capture 1 (one message-size profile) is written
+    and read by index and by skip/count; capture 2 (other sizes / versions / NOPE) likewise through a second
+    object while the first stays alive; capture 1 again; captures 3 and 4; capture 2 again; finally every
+    capture through a new object on the same octets.  Every read is compared with what was stored.
+    A violation is identified by its position in the sequence; replay runs the sequence again up to it."""
+    env()
+    from vlib.runner import VERIF
+    out = []
+    cov = {"evaluations": 0, "distinct_nontrivial": 0, "cross_object_reads": 0, "cross_object_objects": 0}
+    stats = {"idx_beyond": {}, "skip_beyond": {}, "skip_at_end": {}}
+    directory = os.path.join(VERIF, "build", "c15.%d" % os.getpid())
+    os.makedirs(directory, exist_ok=True)
+    pos = [0]
+    caps = []
+
+    class Done(Exception):
+        pass
+
+    def read_all(backend, ci, reader, stored, how):
+        for op in xo_ops(len(stored)):
+            tmp = []
+            case = {"leg": "cross-object", "pos": pos[0]}
+            nonempty = judge_op(reader, op, stored, len(stored), "-", tmp, case, stats)
+            cov["evaluations"] += 1
+            cov["cross_object_reads"] += 1
+            if nonempty:
+                cov["distinct_nontrivial"] += 1
+            if only_pos is None or pos[0] == only_pos:
+                for key, c, msg in tmp:
+                    what = ":".join(key.split(":")[1:-1])
+                    out.append(("C15:cross-object:%s:capture%d:%s" % (backend, ci + 1, what), case,
+                                "read %d of the fixed multi-capture sequence (%s, capture %d = [%s], %s): %s"
+                                % (pos[0], backend, ci + 1, ", ".join(MENU_NAMES[m] for m in XO_PROFILES[ci]), how, msg)))
+            if (only_pos is not None and pos[0] >= only_pos) or len(out) >= XO_LIMIT:
+                raise Done()
+            pos[0] += 1
+    try:
+        for backend in ("bytesio", "file"):
+            made = {}
+            for ci in (0, 1, 0, 2, 3, 1, 0):
+                if ci not in made:
+                    cap = Capture(backend, directory, "capture%d.bin" % ci)
+                    caps.append(cap)
+                    stored = [stored_entry(m, p) for p, m in enumerate(XO_PROFILES[ci])]
+                    msgs = [build_msg(e) for e in stored]
+                    cap.d.append_all(msgs[:1])
+                    for m in msgs[1:]:
+                        cap.d.append_msg(m)
+                    made[ci] = (cap, stored)
+                    cov["cross_object_objects"] += 1
+                    read_all(backend, ci, cap.d, stored, "the writing object, first visit")
+                else:
+                    cap, stored = made[ci]
+                    read_all(backend, ci, cap.d, stored, "the same object, visited again after other captures")
+            dd = env()["dd"]
+            for ci in sorted(made):
+                cap, stored = made[ci]
+                cov["cross_object_objects"] += 1
+                read_all(backend, ci, dd.DATADumpFile(io.BytesIO(cap.content())), stored, "a new object on the same octets")
+    except Done:
+        pass
+    finally:
+        for cap in caps:
+            cap.close()
+        shutil.rmtree(directory, ignore_errors=True)
+    return {"cov": cov, "viol": out}
 
 
 # ---------------------------------------------------------------------------
@@ -833,6 +925,19 @@ def histories(nmax):
 
 def run(ctx):
     nmax = 3 if ctx.quick else 4
+    # first, in this process: do DATADumpFile objects influence each other?  If they do, what a work item of the
+    # sweeps below observes depends on the captures its process handled before - its violations would be
+    # meaningless and would not replay - so the sweeps are skipped.
+    xo = cross_object_leg()
+    ctx.merge(xo)
+    if xo["viol"]:
+        c = ctx.cov
+        c["sweeps_skipped"] = 1
+        c["rule"] = ("cross-object leg only (fixed sequence of reads over %d capture profiles x 2 backends through several "
+                     "DATADumpFile objects in one process); it reported violations, i.e. a capture's reads depend on "
+                     "other captures handled by the process, so the per-capture sweeps were not run" % len(XO_PROFILES))
+        c["exhaustive"] = False
+        return
     items = [(h, nmax, ctx.quick) for h in histories(nmax)]
     for r in ctx.pmap(work, items, chunksize=8 if ctx.quick else 32):
         ctx.merge(r)
@@ -872,6 +977,11 @@ def run(ctx):
                     "to the record end and uncut images get the complete product)"
                     % ("all images" if ctx.quick else "images of 4-message histories cut inside the 4th record only - "
                        "every image of the <= 3-message histories gets the complete product", EDGE)))
+    c["rule"] += ("; CROSS-OBJECT leg (run first, in one process): a fixed sequence over %d capture profiles (different message "
+                  "sizes / versions / NOPE) x 2 backends: capture 1 written and read by index and skip/count, capture 2 "
+                  "through a second object, capture 1 again, captures 3, 4, capture 2 again, capture 1 again, then each "
+                  "through a new object on the same octets; every read judged (had it reported, the sweeps would have "
+                  "been skipped)" % len(XO_PROFILES))
     c["rule"] += ("; RE-APPEND leg: ONE message object (%d kinds: Tx v0/v1, Rx v0, Rx v1 8-PSK / 32QAM / NOPE) is appended three "
                   "times (append_msg / append_all([m]) / append_all([m, m])) to a real file and to a BytesIO, optionally "
                   "encoded once with gen_msg() before, with every ordered pair of in-place changes from %s between the "
@@ -905,6 +1015,10 @@ def run(ctx):
 
 
 def replay(ctx, case):
+    if case.get("leg") == "cross-object":
+        for v in cross_object_leg(only_pos=int(case["pos"]))["viol"]:
+            ctx.violation(*v)
+        return
     if case.get("leg") == "reappend":
         env()
         out, stats = [], {"idx_beyond": {}, "skip_beyond": {}, "skip_at_end": {}}
